@@ -244,7 +244,18 @@ func c09GenCase(seed int64, idx int) packedCase {
 	}
 	// wrapper for 'return f()'
 	if len(rts) > 0 {
-		fmt.Fprintf(&sb, "func %sw(%s)%s {\n\treturn %s(%s)\n}\n\n", id, strings.Join(ps, ", "), rt, id, func() string {
+		// a function literal with another result count ahead of the forwarding return
+		lit := ""
+		switch rng.Intn(3) {
+		case 0:
+			lit = "\thelper := func(a int) int {\n\t\treturn a + 1\n\t}\n\t_ = helper\n"
+		case 1:
+			lit = "\tnote := func() {\n\t}\n\tnote()\n"
+		}
+		if len(rts) == 1 && rng.Bool() {
+			lit = "\tpair := func(a int) (int, int) {\n\t\treturn a, a + 1\n\t}\n\tq1, q2 := pair(1)\n\t_, _ = q1, q2\n"
+		}
+		fmt.Fprintf(&sb, "func %sw(%s)%s {\n%s\treturn %s(%s)\n}\n\n", id, strings.Join(ps, ", "), rt, lit, id, func() string {
 			var as []string
 			for i := range sig.params {
 				as = append(as, fmt.Sprintf("p%d", i))
@@ -322,6 +333,28 @@ func c09Recursion(depth int) packedCase {
 	id := fmt.Sprintf("rec%d", depth)
 	decl := fmt.Sprintf("func %s() {\n\to := &T{A: 5}\n\tshow(down(%d, 0), even(%d), odd(%d), o.Rec(%d))\n}\n", id, depth, depth, depth, depth)
 	return packedCase{ID: id, Decl: decl, Call: fmt.Sprintf("\thdr(%q)\n\t%s()\n", id, id)}
+}
+
+// c09Deep: recursion whose every level passes untyped constants and nil, with nLocals extra locals (the
+// frame size decides where stack growth falls); each level's contribution shows whether the arguments were
+// converted to the declared parameter types.
+func c09Deep(nLocals, depth int) packedCase {
+	id := fmt.Sprintf("deep%dx%d", nLocals, depth)
+	var sb strings.Builder
+	fmt.Fprintf(&sb, "func %sf(n int, x float64, s []int, b byte, u uint32) float64 {\n", id)
+	var sum []string
+	for i := 0; i < nLocals; i++ {
+		fmt.Fprintf(&sb, "\tl%d := n + %d\n", i, i)
+		sum = append(sum, fmt.Sprintf("l%d", i))
+	}
+	if nLocals == 0 {
+		sum = []string{"n"}
+	}
+	fmt.Fprintf(&sb, "\tif n <= 0 {\n\t\treturn x/2 + float64(len(s)) + float64(b+250) + float64(u-2)\n\t}\n")
+	fmt.Fprintf(&sb, "\tr := %sf(n-1, 1, nil, 10, 1)\n", id)
+	fmt.Fprintf(&sb, "\treturn r + x/2 + float64(len(append(s, 1))) + float64(b+250) + float64((%s)%%7)\n}\n\n", strings.Join(sum, "+"))
+	fmt.Fprintf(&sb, "func %s() {\n\tshow(%sf(%d, 3, []int{1, 2}, 7, 5))\n}\n", id, id, depth)
+	return packedCase{ID: id, Decl: sb.String(), Call: fmt.Sprintf("\thdr(%q)\n\t%s()\n", id, id)}
 }
 
 // ill-formed calls: must be reported as errors
@@ -406,6 +439,11 @@ func runC09(r *core.Run) {
 	for _, d := range []int{1, 10, 100, 1000, 2500, 5000} {
 		cases = append(cases, c09Recursion(d))
 	}
+	for nl := 0; nl <= 9; nl++ {
+		for _, d := range []int{40, 300, 1200, 4000} {
+			cases = append(cases, c09Deep(nl, d))
+		}
+	}
 	res := runPacked(r, "ca", c09Prelude, cases, 200, c09Budget)
 	for i, pr := range res {
 		r.Eval(1)
@@ -429,7 +467,7 @@ func runC09(r *core.Run) {
 		if strings.Count(pr.Go, "\n") >= 3 {
 			r.Distinct(cases[i].Decl)
 		}
-		if strings.HasPrefix(cases[i].ID, "rec") {
+		if strings.HasPrefix(cases[i].ID, "rec") || strings.HasPrefix(cases[i].ID, "deep") {
 			r.Count("recursion_depths_checked", 1)
 		}
 		if i%701 == 0 {
